@@ -45,6 +45,31 @@ NOBODY == ""            \* GetOwner of a token without owner key: empty address
 
 UsersOf(t) == DOMAIN t.idx
 
+(***************************************************************************)
+(* Unusual inputs (round 7).  Ids are literal strings, identical in model  *)
+(* and chain, except three abstract names the harness expands:             *)
+(*   "L101" / "L102"  an id of 101 / 102 letters (the length limit, +1)    *)
+(*   "SENT"           the do-not-modify sentinel "[do-not-modify]" as id   *)
+(* types/validation.go cannot be evaluated on strings by TLC, so the       *)
+(* outcome of ValidateDenomID / ValidateTokenID / ValidateKeywords /       *)
+(* IsIBCDenom is tabulated for the ids the drivers use; every other id is  *)
+(* an ordinary valid one ([a-z][a-zA-Z0-9/]{2,100}).                       *)
+(***************************************************************************)
+InvalidIds == {"", "ab", "Cla", "1la", "cl-a", "cl_a", "SENT", "L102"}   \* refused by the id pattern
+TibcDash == {"tibc-abc"}    \* ValidateDenomID lets the prefix "tibc-" pass although the pattern refuses '-'
+KeywordIds == {"ibc/abc", "ibcabc", "pegabc", "htltabc", "tibcabc", "tibc-abc"}   \* ValidateKeywords (issue only)
+IbcIds == {"ibc/abc"}       \* IsIBCDenom: prefix "ibc/" (no mint by message)
+BadClassId(c) == c \in InvalidIds
+BadTokenId(i) == i \in InvalidIds \cup TibcDash
+(* metadata values with a meaning: a uri of 256 / 257 characters (MaxTokenURILen
+   = 256, checked by mint and edit, NOT by transfer), data that is not JSON *)
+URI256 == "u256"
+URI257 == "u257"
+BADJSON == "badjson"
+(* accounts that can be named but cannot sign: a module account ("mod" is the
+   fee collector's address in the harness) *)
+Unsignable == {"mod"}
+
 NoEv == [name |-> "Init", who |-> "", cls |-> "", id |-> "", to |-> "",
          mintR |-> FALSE, updateR |-> FALSE, cmeta |-> "",
          n |-> KEEP, u |-> KEEP, h |-> KEEP, d |-> KEEP,
@@ -79,7 +104,10 @@ IdxDel(idx, a, c, id) == IF a \in DOMAIN idx THEN [idx EXCEPT ![a][c] = @ \ {id}
 
 (* msg_server.go IssueDenom -> denom.go SaveDenom -> x/nft SaveClass *)
 DoIssueDenom(s, who, c, mintR, updateR, meta) ==
-  IF HasClass(s, c) THEN Fail(s, "class_exists")
+  IF who \in Unsignable THEN Fail(s, "unsignable")
+  ELSE IF BadClassId(c) THEN Fail(s, "invalid_id")                \* ValidateBasic
+  ELSE IF c \in KeywordIds THEN Fail(s, "keyword")
+  ELSE IF HasClass(s, c) THEN Fail(s, "class_exists")
   ELSE Done(WithQ(
     [s EXCEPT
        !.cls = Put(s.cls, c, [creator |-> who, mintR |-> mintR, updateR |-> updateR, meta |-> meta]),
@@ -89,7 +117,11 @@ DoIssueDenom(s, who, c, mintR, updateR, meta) ==
 
 (* msg_server.go MintNFT -> nft.go SaveNFT -> x/nft Mint / mintWithNoCheck *)
 DoMintNFT(s, who, c, id, to, n, u, h, d) ==
-  IF d = KEEP THEN Fail(s, "invalid_data")       \* ValidateBasic: the sentinel is not JSON
+  IF who \in Unsignable THEN Fail(s, "unsignable")
+  ELSE IF c \in IbcIds THEN Fail(s, "ibc_class")                       \* ValidateBasic: IsIBCDenom
+  ELSE IF BadClassId(c) \/ BadTokenId(id) THEN Fail(s, "invalid_id")
+  ELSE IF u = URI257 THEN Fail(s, "invalid_uri")
+  ELSE IF d \in {KEEP, BADJSON} THEN Fail(s, "invalid_data")   \* ValidateBasic: the sentinel is not JSON
   ELSE IF ~HasClass(s, c) THEN Fail(s, "no_class")                      \* GetDenomInfo
   ELSE IF s.cls[c].mintR /\ s.cls[c].creator # who THEN Fail(s, "mint_restricted")
   ELSE IF HasNFT(s, c, id) THEN Fail(s, "nft_exists")              \* x/nft Mint
@@ -101,7 +133,11 @@ DoMintNFT(s, who, c, id, to, n, u, h, d) ==
 
 (* msg_server.go EditNFT -> nft.go UpdateNFT *)
 DoEditNFT(s, who, c, id, n, u, h, d) ==
-  IF ~HasClass(s, c) THEN Fail(s, "no_class")
+  IF who \in Unsignable THEN Fail(s, "unsignable")
+  ELSE IF BadClassId(c) \/ BadTokenId(id) THEN Fail(s, "invalid_id")   \* ValidateBasic
+  ELSE IF u = URI257 THEN Fail(s, "invalid_uri")
+  ELSE IF d = BADJSON THEN Fail(s, "invalid_data")
+  ELSE IF ~HasClass(s, c) THEN Fail(s, "no_class")
   ELSE IF s.cls[c].updateR THEN Fail(s, "update_restricted")
   ELSE IF OwnerOf(s, c, id) # who THEN Fail(s, "unauthorized")     \* Authorize
   ELSE IF ~Modified(u) /\ ~Modified(h) /\ ~Modified(n) /\ ~Modified(d) THEN Done(s)
@@ -111,7 +147,10 @@ DoEditNFT(s, who, c, id, n, u, h, d) ==
 
 (* msg_server.go TransferNFT -> nft.go TransferOwnership -> x/nft Update, Transfer *)
 DoTransferNFT(s, who, c, id, to, n, u, h, d) ==
-  IF ~HasNFT(s, c, id) THEN Fail(s, "no_nft")
+  IF who \in Unsignable THEN Fail(s, "unsignable")
+  ELSE IF BadClassId(c) \/ BadTokenId(id) THEN Fail(s, "invalid_id")   \* ValidateBasic (no uri length check here)
+  ELSE IF d = BADJSON THEN Fail(s, "invalid_data")
+  ELSE IF ~HasNFT(s, c, id) THEN Fail(s, "no_nft")
   ELSE IF OwnerOf(s, c, id) # who THEN Fail(s, "unauthorized")
   ELSE
     LET changed == Modified(u) \/ Modified(h) \/ Modified(n) \/ Modified(d)
@@ -129,7 +168,9 @@ DoTransferNFT(s, who, c, id, to, n, u, h, d) ==
 
 (* msg_server.go BurnNFT -> nft.go RemoveNFT -> x/nft Burn / burnWithNoCheck *)
 DoBurnNFT(s, who, c, id) ==
-  IF OwnerOf(s, c, id) # who THEN Fail(s, "unauthorized")
+  IF who \in Unsignable THEN Fail(s, "unsignable")
+  ELSE IF BadClassId(c) \/ BadTokenId(id) THEN Fail(s, "invalid_id")   \* ValidateBasic
+  ELSE IF OwnerOf(s, c, id) # who THEN Fail(s, "unauthorized")
   ELSE Done(WithQ(
     [s EXCEPT
        !.nft[c] = Del(@, id),
@@ -138,7 +179,9 @@ DoBurnNFT(s, who, c, id) ==
 
 (* msg_server.go TransferDenom -> denom.go TransferDenomOwner -> x/nft UpdateClass *)
 DoTransferDenom(s, who, c, to) ==
-  IF ~HasClass(s, c) THEN Fail(s, "no_class")
+  IF who \in Unsignable THEN Fail(s, "unsignable")
+  ELSE IF BadClassId(c) THEN Fail(s, "invalid_id")                       \* ValidateBasic
+  ELSE IF ~HasClass(s, c) THEN Fail(s, "no_class")
   ELSE IF s.cls[c].creator # who THEN Fail(s, "unauthorized")
   ELSE Done([s EXCEPT !.cls[c].creator = to])
 
@@ -157,14 +200,25 @@ Apply(s, e) ==
 -----------------------------------------------------------------------------
 (* Ghosts (only for coverage counters; no clause depends on them):
    burned = tokens <<c, id>> burned at least once, handed = classes that were
-   handed over.  Computed from the observed (s, e, t) only. *)
-GhostInit == [burned |-> {}, handed |-> {}]
+   handed over, exOwner = <<c, id, a>>: a owned token (c, id) before (it was
+   transferred away or burned), exCreator = <<c, a>>: a was the creator of c
+   before.  Computed from the observed (s, e, t) only. *)
+GhostInit == [burned |-> {}, handed |-> {}, exOwner |-> {}, exCreator |-> {}]
 
 AllTokens(t) == UNION {{<<c, i>> : i \in DOMAIN t.nft[c]} : c \in DOMAIN t.nft}
 
 GhostStep(g, s, e, t) ==
   [burned |-> g.burned \cup (AllTokens(s) \ AllTokens(t)),
-   handed |-> g.handed \cup {c \in DOMAIN s.cls : c \in DOMAIN t.cls /\ t.cls[c].creator # s.cls[c].creator}]
+   handed |-> g.handed \cup {c \in DOMAIN s.cls : c \in DOMAIN t.cls /\ t.cls[c].creator # s.cls[c].creator},
+   exOwner |-> g.exOwner, exCreator |-> g.exCreator]
+(* coverage ghosts, maintained by the trace specification only *)
+CovStep(g, s, e, t) ==
+  [GhostStep(g, s, e, t) EXCEPT
+     !.exOwner = g.exOwner \cup
+       {<<x[1], x[2], s.nft[x[1]][x[2]].owner>> : x \in
+          {y \in AllTokens(s) : ~HasNFT(t, y[1], y[2]) \/ t.nft[y[1]][y[2]].owner # s.nft[y[1]][y[2]].owner}},
+     !.exCreator = g.exCreator \cup
+       {<<c, s.cls[c].creator>> : c \in {d \in DOMAIN s.cls : d \in DOMAIN t.cls /\ t.cls[d].creator # s.cls[d].creator}}]
 
 -----------------------------------------------------------------------------
 (***************************************************************************)
@@ -257,6 +311,63 @@ C14_Supply(t) ==
     /\ t.sup[c] = SumOver([a \in UsersOf(t) |-> Cardinality(t.idx[a][c])], UsersOf(t))
     /\ t.sup[c] = SumOver([a \in UsersOf(t) |-> t.bal[a][c]], UsersOf(t))
 
+(***************************************************************************)
+(* The same statements on the RAW STORE (round 7).  The harness scans the   *)
+(* nft store after every event and logs, next to the query results above,  *)
+(*   r.cls          the class keys                       (0x01 <class>)    *)
+(*   r.tok[c][i]    the token records of class c, each with the address    *)
+(*                  under its owner key, "" if none      (0x02, 0x04)      *)
+(*   r.own[c]       the ids that have an owner key       (0x04)            *)
+(*   r.idx[a][c]    the owner-index entries of address a (0x03) - ALL      *)
+(*                  addresses, also those outside the account universe     *)
+(*   r.sup[c]       the supply counters                  (0x05)            *)
+(* Queries filter (NFTsOfOwner and Supply(class, owner) skip index entries *)
+(* whose token record is gone; the closed universe hides ids and addresses *)
+(* nobody asked for); the store does not.  In the model the queries are    *)
+(* functions of the stores, so these clauses are evaluated on traces only. *)
+(***************************************************************************)
+RawTok(r, c) == IF c \in DOMAIN r.tok THEN r.tok[c] ELSE EmptyF
+RawIdx(r, a, c) == IF a \in DOMAIN r.idx /\ c \in DOMAIN r.idx[a] THEN r.idx[a][c] ELSE {}
+RawClasses(r) == r.cls \cup DOMAIN r.tok \cup UNION {DOMAIN r.idx[a] : a \in DOMAIN r.idx}
+
+(* Every token record has exactly one owner: an owner key, and the token is
+   listed in the owner index of exactly that address *)
+C14_StoreOwner(r) ==
+  \A c \in DOMAIN r.tok : \A i \in DOMAIN r.tok[c] :
+    /\ r.tok[c][i] # NOBODY
+    /\ {a \in DOMAIN r.idx : i \in RawIdx(r, a, c)} = {r.tok[c][i]}
+
+(* The reported supply of a class = the number of its token records = the sum
+   of all owners' holdings in the store; every account's reported balance =
+   the number of token records it owns *)
+C14_StoreSupply(t, r) ==
+  \A c \in RawClasses(r) \cup DOMAIN t.cls :
+    LET n == Cardinality(DOMAIN RawTok(r, c)) IN
+    /\ c \in DOMAIN t.sup /\ t.sup[c] = n
+    /\ n = SumOver([a \in DOMAIN r.idx |-> Cardinality(RawIdx(r, a, c))], DOMAIN r.idx)
+    /\ \A a \in UsersOf(t) :
+         /\ c \in DOMAIN t.bal[a]
+         /\ t.bal[a][c] = Cardinality({i \in DOMAIN RawTok(r, c) : r.tok[c][i] = a})
+
+(* Diagnostics on the store: nothing is left behind (no index entry, owner key
+   or supply counter without its token / class), and every read path agrees
+   with the store: the paginated class list, the per-token query, the paginated
+   collection and the owner index read as a whole and class by class *)
+X14_StoreTidy(r) ==
+  /\ \A a \in DOMAIN r.idx : \A c \in DOMAIN r.idx[a] : r.idx[a][c] \subseteq DOMAIN RawTok(r, c)
+  /\ \A c \in DOMAIN r.own : r.own[c] \subseteq DOMAIN RawTok(r, c)
+  /\ DOMAIN r.tok \subseteq r.cls
+  /\ \A c \in DOMAIN r.sup : r.sup[c] = Cardinality(DOMAIN RawTok(r, c))
+X14_ReadBack(t, r, q) ==
+  /\ DOMAIN t.cls = r.cls /\ q.denoms = r.cls
+  /\ \A c \in r.cls \cap DOMAIN t.cls :
+       /\ DOMAIN t.nft[c] = DOMAIN RawTok(r, c)
+       /\ DOMAIN t.coll[c] = DOMAIN RawTok(r, c)
+       /\ \A i \in DOMAIN t.nft[c] : i \in DOMAIN RawTok(r, c) => t.nft[c][i].owner = r.tok[c][i]
+       /\ \A a \in UsersOf(t) :
+            /\ t.idx[a][c] = {i \in RawIdx(r, a, c) : i \in DOMAIN RawTok(r, c)}
+            /\ q.idxc[a][c] = t.idx[a][c]
+
 (* a rejected message changes nothing; the end of a block changes nothing *)
 Rejected_NoEffect(s, e, t) ==
   (~e.ok \/ e.name = "EndBlock") => t = s
@@ -284,9 +395,23 @@ X14_Fidelity(s, e, t) ==
 
 -----------------------------------------------------------------------------
 (* Model-checking universe *)
-Init0 ==
+Accounts == Users \cup Recipients      \* the tracked accounts (signers and recipient-only ones)
+InitEmpty ==
   [cls |-> EmptyF, nft |-> EmptyF, sup |-> EmptyF, coll |-> EmptyF,
-   idx |-> [a \in Users |-> EmptyF], bal |-> [a \in Users |-> EmptyF]]
+   idx |-> [a \in Accounts |-> EmptyF], bal |-> [a \in Accounts |-> EmptyF]]
+(* An IBC-style class cannot be issued by message (keyword) - it arrives through
+   genesis / the nft-transfer application.  When the universe names one, the
+   history starts with it in place (harness: driver cfg pre=1 puts the same
+   collection into the genesis state): class "ibc/abc" of u2, no restriction,
+   holding token "tka" of u1. *)
+PreClass == "ibc/abc"
+InitPre ==
+  WithQ([InitEmpty EXCEPT
+           !.cls = (PreClass :> [creator |-> "u2", mintR |-> FALSE, updateR |-> FALSE, meta |-> "m"]),
+           !.nft = (PreClass :> ("tka" :> [owner |-> "u1", n |-> "a", u |-> "x", h |-> "", d |-> ""])),
+           !.idx = [a \in Accounts |-> (PreClass :> (IF a = "u1" THEN {"tka"} ELSE {}))],
+           !.sup = (PreClass :> 1)])
+Init0 == IF PreClass \in Classes THEN InitPre ELSE InitEmpty
 
 Init == st = Init0 /\ ev = NoEv /\ gh = GhostInit /\ hist = <<>>
 
@@ -306,27 +431,31 @@ Step(e) ==
 
 ArgVals(V) == V \cup {KEEP}
 MintVals(V) == IF V = {} THEN {""} ELSE V    \* an empty value set: mint with "", never modify
+MintData == IF DataVals \subseteq {BADJSON} THEN {""} \cup DataVals ELSE DataVals
 
+(* who may be named as sender: the signers, and (probe universes) accounts
+   that can only receive *)
+Senders == Users \cup (Recipients \cap Unsignable)
 IssueDenom ==
   \E who \in Creators, c \in Classes, mr \in BOOLEAN, ur \in BOOLEAN, m \in CMetaVals :
     Step(E("IssueDenom", who, c, "", "", mr, ur, m, KEEP, KEEP, KEEP, KEEP))
 MintNFT ==
-  \E who \in Users, tk \in Tokens, to \in Recipients,
-     n \in MintVals(NameVals), u \in MintVals(UriVals), h \in MintVals(HashVals), d \in MintVals(DataVals) :
+  \E who \in Senders, tk \in Tokens, to \in Recipients,
+     n \in MintVals(NameVals), u \in MintVals(UriVals), h \in MintVals(HashVals), d \in MintData :
     Step(E("MintNFT", who, tk[1], tk[2], to, FALSE, FALSE, "", n, u, h, d))
 EditNFT ==
-  \E who \in Users, tk \in Tokens,
+  \E who \in Senders, tk \in Tokens,
      n \in ArgVals(NameVals), u \in ArgVals(UriVals), h \in ArgVals(HashVals), d \in ArgVals(DataVals) :
     Step(E("EditNFT", who, tk[1], tk[2], "", FALSE, FALSE, "", n, u, h, d))
 TransferNFT ==
-  \E who \in Users, tk \in Tokens, to \in Recipients,
+  \E who \in Senders, tk \in Tokens, to \in Recipients,
      n \in ArgVals(NameVals), u \in ArgVals(UriVals), h \in ArgVals(HashVals), d \in ArgVals(DataVals) :
     Step(E("TransferNFT", who, tk[1], tk[2], to, FALSE, FALSE, "", n, u, h, d))
 BurnNFT ==
-  \E who \in Users, tk \in Tokens :
+  \E who \in Senders, tk \in Tokens :
     Step(E("BurnNFT", who, tk[1], tk[2], "", FALSE, FALSE, "", KEEP, KEEP, KEEP, KEEP))
 TransferDenom ==
-  \E who \in Users, c \in Classes, to \in Recipients :
+  \E who \in Senders, c \in Classes, to \in Recipients :
     Step(E("TransferDenom", who, c, "", to, FALSE, FALSE, "", KEEP, KEEP, KEEP, KEEP))
 
 Next == IssueDenom \/ MintNFT \/ EditNFT \/ TransferNFT \/ BurnNFT \/ TransferDenom
@@ -340,6 +469,27 @@ Rejects(h) == Cardinality({i \in DOMAIN h : ~h[i].ok})
 GenNext == Next /\ (ev'.ok \/ 3 * Rejects(hist) <= Len(hist) + 2)
 GenSpec == Init /\ [][GenNext]_vars
 GenDepth == atoi(IOEnv.GEN_DEPTH)
+(* Second generator mode (negative probing): like GenNext, but the last
+   ProbeLen events of every behaviour are events the specification REJECTS -
+   a deep state (classes with their flags, handed over or not; tokens minted,
+   moved, burned, minted again) probed with operations that must fail.  The
+   first two of them are refusals that depend on the state (not on the shape
+   of the message alone); the last two may be any refusal.  The driver appends
+   its epilogue, computed from the REAL chain state. *)
+ProbeLen == 4
+BasicWhys == {"unsignable", "invalid_id", "keyword", "ibc_class", "invalid_uri", "invalid_data"}
+GenNextP ==
+  /\ Next
+  /\ IF Len(hist) < GenDepth - ProbeLen
+     THEN ev'.ok \/ 4 * Rejects(hist) <= Len(hist) + 2
+     ELSE /\ ~ev'.ok
+          /\ (Len(hist) < GenDepth - 2) => Apply(st, ev').why \notin BasicWhys
+          \* TLC prints every successor of the last state (and the orchestrator keeps three of
+          \* them): the very last probe stays with the sender, class and token of the one before
+          /\ (Len(hist) = GenDepth - 1) =>
+               /\ ev'.who = hist[Len(hist)].who /\ ev'.cls = hist[Len(hist)].cls
+               /\ ev'.id \in {hist[Len(hist)].id, ""}
+GenSpecP == Init /\ [][GenNextP]_vars
 GenConstraint ==
   /\ Len(hist) <= GenDepth
   /\ (Len(hist) = GenDepth) => PrintT(<<"BEHAVIOUR", ToJson(hist)>>)
@@ -365,4 +515,11 @@ View == st
 (* token universes for the configurations (cfg files cannot write tuples) *)
 Tokens_2x2 == {<<"cla", "tka">>, <<"cla", "tkb">>, <<"clb", "tka">>, <<"clb", "tkb">>}
 Tokens_2p1 == {<<"cla", "tka">>, <<"cla", "tkb">>, <<"clb", "tka">>}
+(* probe universe: ids that are prefixes of one another or differ in case only,
+   a token id equal to a class id, the IBC-style class, ids at / beyond the
+   length limit, the sentinel as an id, an id the pattern refuses *)
+Classes_probe == {"cla", "clab", "clA", "ibc/abc", "L101", "ab", "ibcabc"}
+Tokens_probe == {<<"cla", "tka">>, <<"cla", "tkab">>, <<"cla", "tkA">>, <<"cla", "cla">>, <<"clab", "tka">>,
+                 <<"clA", "tka">>, <<"ibc/abc", "tka">>, <<"ibc/abc", "tkab">>, <<"L101", "L101">>,
+                 <<"cla", "L102">>, <<"cla", "SENT">>, <<"ab", "tka">>, <<"SENT", "tka">>}
 =============================================================================
